@@ -30,7 +30,7 @@ BUDGET = {
     "quick": {"cases": 1200, "seconds": 90, "shards": 8},
     "thorough": {"cases": 24000, "seconds": 900, "shards": 16},
 }
-REQUIRED_OBS = ["loaded_snapshot_compared", "loaded_predictions_compared", "original_unaltered_checked", "fresh_interpreter_loads", "same_path_resave_checked", "asymmetric_matrix_cases", "state_changed_between_saves",
+REQUIRED_OBS = ["loaded_snapshot_compared", "loaded_predictions_compared", "original_unaltered_checked", "fresh_interpreter_loads", "same_path_resave_checked", "asymmetric_matrix_cases", "state_changed_between_saves", "failed_save_checked", "twin_loads_checked", "metric_set_through_property",
                 "mode:pre", "mode:fly", "kind:supervised", "kind:semi", "kind:knn", "kind:unsup"]
 MIN_NONTRIVIAL = 100
 KINDS = ["supervised", "semi", "knn", "unsup"]
@@ -51,8 +51,13 @@ def generate(rng, tier, idx):
     Q = gen.to_domain(gen.make_queries(rng, A, int(rng.integers(1, 7))), dom)
     max_k = int(rng.integers(1, min(4, n - 1) + 1))
     fresh = (idx % (40 if tier == "quick" else 12)) == 5
+    fn_via_property = None
+    if rng.random() < 0.12:
+        same_dom = [k for k in NAMES if T[k][1] == dom and k != name and k != "statistic"]
+        fn_via_property = same_dom[int(rng.integers(0, len(same_dom)))] if same_dom else None
     case = {"kind": kind, "metric": name, "X": X.tolist(), "Y": Y.tolist(), "V": V.tolist(), "YV": [int(v) for v in YV], "Q": Q.tolist(),
-            "max_k": max_k, "min_k": int(rng.integers(1, max_k + 1)), "pre": None, "fresh": bool(fresh)}
+            "max_k": max_k, "min_k": int(rng.integers(1, max_k + 1)), "pre": None, "fresh": bool(fresh),
+            "fn_via_property": fn_via_property, "f32_unlabeled": bool(kind == "semi" and rng.random() < 0.3)}
     if pre:
         if kind == "knn":
             N = n
@@ -76,6 +81,8 @@ def generate(rng, tier, idx):
 def _fit(case, m):
     X, Y = np.array(case["X"], dtype=float), np.array(case["Y"], dtype=int)
     V, YV = np.array(case["V"], dtype=float), np.array(case["YV"], dtype=int)
+    if case.get("f32_unlabeled") and case["kind"] == "semi":
+        V = V.astype(np.float32)               # labeled float64 beside unlabeled float32 rows
     pre = case["pre"]
     I = np.array(pre["I"], dtype=int) if pre else None
     if case["kind"] == "supervised":
@@ -95,6 +102,10 @@ def _predict(case, m):
     return safe_call(m.predict, Q)
 
 
+def _feat(m):
+    return [(str(np.asarray(nd.features).dtype), np.ascontiguousarray(nd.features).tobytes().hex()) for nd in m.subgraph.nodes]
+
+
 def _plain(v):
     return [list(map(int, x)) for x in v] if isinstance(v, tuple) else list(map(int, v))
 
@@ -111,6 +122,10 @@ def check(case):
             pre_file = os.path.join(tmp, "d.txt")
             np.savetxt(pre_file, np.array(case["pre"]["D"], dtype=float))
         m = build_model(kind, name, pre=pre_file, max_k=case["max_k"], min_k=case["min_k"])
+        if case.get("fn_via_property") and not case["pre"]:
+            # the metric function replaced through the public property: the name no longer tells which function is in use
+            m.distance_fn = DISTANCES[case["fn_via_property"]]
+            res.see("metric_set_through_property")
         f = _fit(case, m)
         if not f.ok:
             if is_library_domain_error(f.exc):
@@ -130,12 +145,27 @@ def check(case):
         if d:
             res.violate("save", "C19/save-alters-original", f"{kind}/{name}: saving changed the original model: {d}")
             return res
+        # saving into a folder that does not exist fails - and must leave the original as it was
+        bad = safe_call(m.save, os.path.join(tmp, "no-such-folder", "m.pkl"))
+        if not bad.ok:
+            res.see("failed_save_checked")
+            d = snapshot_diff(forest_snapshot(m), S0)
+            pchk = _predict(case, m)
+            if d or (p0.ok and (not pchk.ok or _plain(pchk.value) != _plain(p0.value))):
+                res.violate("save", "C19/failed-save-alters-original",
+                            f"{kind}/{name}: after a save that raised {type(bad.exc).__name__} the original model changed: {d or 'predictions differ / predict raises ' + str(pchk.where)}")
+                return res
+            S0 = forest_snapshot(m)
         m2 = build_model(kind)                      # freshly constructed, default arguments
         l = safe_call(m2.load, pkl)
         if not l.ok:
             res.violate("load", f"C19/exception/load/{type(l.exc).__name__}", f"{kind}/{name}: load raised at {l.where}: {str(l.exc)[:200]}")
             return res
         res.see("loaded_snapshot_compared")
+        if _feat(m2) != _feat(m):
+            k = next(i for i, (a, b) in enumerate(zip(_feat(m2), _feat(m))) if a != b)
+            res.violate("load", "C19/loaded-forest-differs", f"{kind}/{name}: node {k}'s stored features differ after load (dtype/bytes {_feat(m2)[k][0]} vs {_feat(m)[k][0]})")
+            return res
         d = snapshot_diff(forest_snapshot(m2), S0)
         if d:
             res.violate("load", "C19/loaded-forest-differs", f"{kind}/{name}: loaded model's forest differs from the original: {d}")
@@ -149,11 +179,16 @@ def check(case):
         rng = np.random.default_rng(len(case["X"]))
         x, y = gen.dom_vec(rng, T[name][1], 4), gen.dom_vec(rng, T[name][1], 4)
         a, b = safe_call(m2.distance_fn, x.copy(), y.copy()), safe_call(DISTANCES[name], x.copy(), y.copy())
-        if a.ok != b.ok or (a.ok and float(a.value).hex() != float(b.value).hex()):
+        if not (case.get("fn_via_property") and not case["pre"]) and (a.ok != b.ok or (a.ok and float(a.value).hex() != float(b.value).hex())):
             res.violate("load", "C19/loaded-metric-differs", f"{kind}/{name}: loaded model's distance_fn disagrees with DISTANCES[{name!r}] on a probe pair")
             return res
         if m2.distance_fn is DISTANCES[name]:
             res.see("distance_fn_identical_object")
+        if case.get("fn_via_property") and not case["pre"]:
+            a, b = safe_call(m2.distance_fn, x.copy(), y.copy()), safe_call(m.distance_fn, x.copy(), y.copy())
+            if a.ok != b.ok or (a.ok and float(a.value).hex() != float(b.value).hex()):
+                res.violate("load", "C19/loaded-metric-differs", f"{kind}: the original used a metric set through the distance_fn property ({case['fn_via_property']}); the loaded model evaluates another one")
+                return res
         p2 = _predict(case, m2)
         if p0.ok != p2.ok:
             res.violate("load", "C19/loaded-predictions-differ", f"{kind}/{name}: predict ok={p0.ok} on the original but ok={p2.ok} on the loaded model ({p2.where or p0.where})")
@@ -211,6 +246,23 @@ def check(case):
             p3 = _predict(case_b, m3)
             if pb.ok and p3.ok and _plain(pb.value) != _plain(p3.value):
                 res.violate("load", "C19/loaded-predictions-differ", f"{kind}/{name}: after re-saving at the same path, loaded predictions {_plain(p3.value)} != {_plain(pb.value)}")
+                return res
+        # ---- two fresh models loaded from the SAME unchanged file are independent objects: using one must not change the other
+        ma, mb2 = build_model(kind), build_model(kind)
+        la, lb = safe_call(ma.load, pkl), safe_call(mb2.load, pkl)
+        if la.ok and lb.ok:
+            Sb0 = forest_snapshot(mb2)
+            if kind == "unsup":
+                safe_call(ma.propagate_labels)
+            Xtr = np.array(case_b["X"], dtype=float)
+            safe_call(ma.predict, Xtr, np.array(case_b["pre"]["I"], dtype=int)) if case["pre"] else safe_call(ma.predict, Xtr)
+            for nd in ma.subgraph.nodes:
+                nd.relevant = 1
+            res.see("twin_loads_checked")
+            d = snapshot_diff(forest_snapshot(mb2), Sb0)
+            if d:
+                res.violate("load", "C19/loaded-models-share-state",
+                            f"{kind}/{name}: two fresh models loaded from the same file share state: using the first changed the second: {d}")
                 return res
         if case.get("fresh"):
             qf, out = os.path.join(tmp, "q.json"), os.path.join(tmp, "out.json")
